@@ -612,7 +612,7 @@ func (w *world) seq(out *c.Out, seq int, r *c.Rng) {
 	}
 	params.ClaimEnd = cfg.claimEnd
 	must(params.Validate())
-	ik.SetParams(ctx, params)
+	kapp.SetParams(w.tApp, ctx, "incentive", &params, func() { ik.SetParams(ctx, params) })
 
 	swapMsg := swapkeeper.NewMsgServerImpl(w.tApp.GetSwapKeeper())
 	hardMsg := hardkeeper.NewMsgServerImpl(hk)
@@ -1160,7 +1160,7 @@ func (w *world) dustSeq(out *c.Out, seq int, r *c.Rng) {
 	params.HardBorrowRewardPeriods = itypes.MultiRewardPeriods{itypes.NewMultiRewardPeriod(true, "usdx", start, end, in.rates)}
 	params.ClaimEnd = end.Add(30 * 24 * time.Hour)
 	params.ClaimMultipliers = itypes.MultipliersPerDenoms{{Denom: "ukava", Multipliers: itypes.Multipliers{itypes.NewMultiplier("large", 0, sdk.OneDec())}}}
-	ik.SetParams(ctx, params)
+	kapp.SetParams(w.tApp, ctx, "incentive", &params, func() { ik.SetParams(ctx, params) })
 	addr := w.users[0]
 	_, err := hardMsg.Deposit(sdk.WrapSDKContext(ctx), &hardtypes.MsgDeposit{Depositor: addr.String(), Amount: sdk.NewCoins(sdk.NewInt64Coin("bnb", 1e12), sdk.NewInt64Coin("usdx", 1e9))})
 	must(err)
